@@ -3,7 +3,7 @@ from .. import tables
 from ..callgraph import norm
 from ..cfg import Cfg, reach
 from ..common import body_by_name, callee_names, family, last_named_field, ref_field_of_local
-from ..facts import callee, op_local
+from ..facts import callee, op_local, op_place
 from ..flow import Flow, identity_through
 
 CONFIGS_QUICK = ["K1"]
@@ -151,6 +151,73 @@ def error_last_rule(rep, prog, cfg):
     rep.floor(rule, cfg + "/sites", n, 4)
 
 
+def two_source_rule(rep, prog, cfg):
+    """FramesRef / Frames yield the frames and then one error item: two sources.  Only next / next_back / size_hint (and
+    ExactSizeIterator::len) can be written by plain delegation; a positional shortcut (nth, last, count, fold, advance_by,
+    ...) delegated to the frame iterator alone gives the error item a wrong position.  Such an override is not decided by
+    this check and is reported (the defaults, built on next/next_back, are the reference)."""
+    rule = "C19.error-last"
+    allowed = {"next", "next_back", "size_hint", "len"}
+    n = 0
+    for imp in wrapper_types(prog):
+        st = imp["info"]["self"]
+        short = st.split("<")[0].rsplit("::", 1)[-1]
+        if short not in ("FramesRef", "Frames"):
+            continue
+        for it in imp["items"]:
+            if it["def"] not in prog.bodies:
+                continue
+            n += 1
+            b = prog.bodies[it["def"]]
+            rep.check(it["name"] in allowed, rule, "%s/%s::%s overridden" % (cfg, short, it["name"]), b.loc(b.span),
+                      "%s overrides Iterator::%s: on an iterator whose last item is the error, a positional shortcut that delegates to the frame "
+                      "iterator cannot place the error item correctly (e.g. nth past the end must be None, not the error); only next, next_back "
+                      "and size_hint are decided here" % (short, it["name"]))
+    rep.floor(rule, cfg + "/two-source iterator methods", n, 6)
+
+
+def single_frame_rule(rep, prog, cfg):
+    """Response::into_single_frame is the first item of the response's own iteration (first frame, else the error): it must
+    be taken from the response's iterator, or consult the error only on the None edge of the frames."""
+    rule = "C19.first-match"
+    F = "mpd_protocol::response::Response::into_single_frame"
+    bs = body_by_name(prog, F)
+    if len(bs) != 1:
+        rep.fail(rule + ".anchor", cfg + "/Response::into_single_frame", F, "public anchor not found")
+        return
+    b = bs[0]
+    g = Cfg(b)
+    names = set()
+    for bb, t in b.calls():
+        names.update(callee_names(t))
+    own_iter = any(n.endswith("IntoIterator::into_iter") or n.endswith("Response::frames") or n.endswith("Response::into_iter") for n in names)
+    fields_used = set()
+    for bb, i, s2 in b.stmts():
+        if s2["k"] == "assign":
+            for pl in ([s2["rv"].get("place")] if s2["rv"]["k"] in ("ref", "discr") else []) + ([op_place(s2["rv"]["op"])] if s2["rv"]["k"] == "use" else []):
+                if pl is not None and pl["l"] == 1:
+                    fs = [e["n"] for e in pl["p"] if isinstance(e, dict) and "f" in e and e.get("n")]
+                    if fs:
+                        fields_used.add(fs[0])
+    if own_iter and not fields_used:
+        ok = IT + "next" in names and not any(n.rsplit("::", 1)[-1] in BACKWARD or n.endswith("::last") for n in names)
+        rep.check(ok, rule, cfg + "/into_single_frame = first item of the iteration", b.loc(b.span),
+                  "Response::into_single_frame does not take the first item (next) of the response's own iterator")
+        return
+    # direct form: the error may be looked at only when there is no frame
+    err_reads = [bb for bb, i, s2 in b.stmts() if s2["k"] == "assign" and any(
+        pl is not None and pl["l"] == 1 and any(isinstance(e, dict) and e.get("n") == "error" for e in pl["p"])
+        for pl in ([s2["rv"].get("place")] if s2["rv"]["k"] in ("ref", "discr") else []) + ([op_place(s2["rv"]["op"])] if s2["rv"]["k"] == "use" else []))]
+    frame_next = [bb for bb, t in b.calls() if IT + "next" in callee_names(t)]
+    ok = False
+    if len(frame_next) == 1 and err_reads:
+        e = variant_edge(b, frame_next[0], 0)
+        ok = e is not None and all(x not in reach(g.succs, [0], avoid_edges=[e]) for x in err_reads)
+    rep.check(ok, rule, cfg + "/into_single_frame = first item of the iteration", b.loc(b.span),
+              "Response::into_single_frame consults the error although a frame may precede it (or the idiom is unknown): for a response with frames "
+              "followed by an error it would disagree with frames().next(), which yields the first frame")
+
+
 def exact_rule(rep, prog, cfg, types):
     rule = "C19.exact"
     for short, imps in sorted(types.items()):
@@ -254,5 +321,7 @@ def run(rep, progs, tier):
     for cfg, prog in progs.items():
         types = delegation_rule(rep, prog, cfg)
         error_last_rule(rep, prog, cfg)
+        two_source_rule(rep, prog, cfg)
+        single_frame_rule(rep, prog, cfg)
         exact_rule(rep, prog, cfg, types)
         first_match_rule(rep, prog, cfg)
